@@ -1,5 +1,7 @@
 import ESV.Cache.ThreadLemmas
 import ESV.Cache.ThreadSeq
+import ESV.Cache.Shared
+import ESV.Gen.Shared
 /-
 C12 â€” Concurrent compilation and decompilation give the sequential results.
 K3: the memo table of graph_utils.py shared by any number of threads (model: ESV/Cache/Threads.lean), every interleaving
@@ -63,6 +65,11 @@ theorem interleave_sequential_finished (rc : C â†’ K â†’ A â†’ R) (progs : Tid â
   exact this
 
 end
+
+/-- Table lemma: the writes to process-wide state found in the current /repo source (regenerated list) are exactly the ones
+the thread model is built over (ESV/Cache/Shared.lean): the memo table and its lock (modelled), the parsers' shared caches (not
+modelled, exploration only), and import-time constants. -/
+theorem shared_inventory_pinned : Gen.sharedWrites = Cache.modelledSharedKeys := by decide +kernel
 
 /-! ### witnesses (`rc c k a = c`) -/
 
